@@ -124,7 +124,10 @@ func VerifC01_step_feedback() {
 	before := vSumAssume(e.sumActual()...)
 	switch vChoose("fn", 2) {
 	case 0:
+		pendingBefore := len(e.d.feedback)
 		e.d.getLimitedFeedback()
+		// progress: a release that has arrived is taken into account by the next poll (not left waiting for company)
+		vAssert(vOr(pendingBefore == 0, len(e.d.feedback) < pendingBefore), "C06: between rounds at least one pending release is consumed whenever one is pending")
 	case 1:
 		if len(e.d.feedback) == 0 {
 			vAssume(false)
